@@ -840,6 +840,9 @@ def norm_index(i_t, n_t):
 
 
 def index(ip, st, v, i):
+    if kind_of(i) == "bool" and not isinstance(v, (PyDict, FiniteMap, JVal)) and not isinstance(v, JDict):
+        # a bool used as a sequence index is the integer 0 / 1
+        i = (1 if i else 0) if not is_sym(i) else Sym("int", tm.Ite(i.term, tm.Int(1), tm.Int(0)))
     """v[i] with IndexError / KeyError / TypeError paths."""
     if isinstance(i, enum.IntEnum):
         i = int(i)
